@@ -107,7 +107,7 @@ def gen_periods(rng, rows, own_periods, other_periods):
     ready = [s for s in rows["streams"] if s["tref"]]
     by_pk = {p["pk"]: p for p in own_periods + other_periods}
     own_by_pid = {p["pid"]: p["pk"] for p in own_periods}
-    pids, touched = set(), set()
+    newpids, oldpids, touched = set(), set(), set()
     for i in range(n):
         if ready and rng.random() < .85:
             s = rng.choice(ready)["pk"]
@@ -121,22 +121,19 @@ def gen_periods(rng, rows, own_periods, other_periods):
             pk = rng.choice(other_periods)["pk"]
         elif r < .6:
             pk = 77
-        if pk in touched:
-            pk = None
-        free = [p for p in PIDS + ["p9"] if p not in pids]
-        if not free:
-            break
-        pid = rng.choice(free)
-        if pk in by_pk and rng.random() < .6 and by_pk[pk]["pid"] in free:
+        pid = rng.choice(PIDS + ["p9"])
+        if pk in by_pk and rng.random() < .6:
             pid = by_pk[pk]["pid"]
         target = pk if pk in by_pk else (own_by_pid.get(pid) if pk is None else None)
-        if target is not None and target in touched:
+        old = by_pk[target]["pid"] if target is not None else None
+        # no two specs for one Period row, no pid given twice, and no pid that another Period touched by
+        # this request has or had (a transient duplicate whose outcome depends on the order of the flush)
+        if target in touched or pid in newpids or (pid in oldpids and pid != old) or (old is not None and old in newpids):
             continue
-        # a spec that renames a period must not take the pid of a period addressed elsewhere in the request
-        pids.add(pid)
+        newpids.add(pid)
         if target is not None:
             touched.add(target)
-            pids.add(by_pk[target]["pid"])
+            oldpids.add(old)
         have = sorted({f["track"] for f in rows["files"] if f["stream"] == s and f["indexed"]})
         tracks = []
         for t in have + [rng.choice(TRACKS)]:
